@@ -251,6 +251,39 @@ def check(run):
         if k < 2:
             run.sample(dict(family=f'interleave{kind}', records=data[:6].tolist(), nrec=len(data)))
 
+    # 3b. the record array in other (valid) memory layouts: column-major, transposed (9,N) source, row-strided and
+    # column-sliced views, reversed-and-reversed-back, read-only, nested list -- the records are the rows in every case
+    for k in range(6 if run.quick else 200):
+        cpd = CPDS[int(rng.integers(0, len(CPDS)))]
+        recs = []
+        for sgm in range(int(rng.integers(1, 5))):
+            recs.append(header_record(cpd, int(rng.integers(1, 4048)), [int(x) for x in rng.integers(0, cpd, 3)]))
+            n = int(rng.integers(1, 40))
+            f = rng.integers(0, 4096, (n, 6))
+            f[:, 0] = rng.integers(0, 0xFF0, n)
+            recs.append(pack_fields(f))
+        data = np.ascontiguousarray(np.concatenate(recs))
+        N = len(data)
+        wide = np.zeros((N, 12), dtype=np.uint8)
+        wide[:, 2:11] = data
+        tall = np.zeros((3 * N, 9), dtype=np.uint8)
+        tall[::3] = data
+        ro = data.copy()
+        ro.flags.writeable = False
+        variants = {'fortran': np.asfortranarray(data), 'transposed-source': np.ascontiguousarray(data.T).T, 'column-slice': wide[:, 2:11], 'row-strided': tall[::3], 'double-reversed': data[::-1].copy()[::-1], 'read-only': ro, 'nested-list': data.tolist()}
+        pos0, vel0 = pack9.unpack_pack9(data, 500.0, 1000.0, float_dtype=np.float64)
+        for label, arg in variants.items():
+            run.ev()
+            run.nt(('layout', label, k))
+            try:
+                p, v = pack9.unpack_pack9(arg, 500.0, 1000.0, float_dtype=np.float64)
+            except Exception as e:
+                run.count('unusual_input_layout_rejected')  # a refusal is not a wrong result
+                continue
+            if p.shape != pos0.shape or not (np.array_equal(p, pos0, equal_nan=True) and np.array_equal(v, vel0, equal_nan=True)):
+                run.violation('pack9-input-layout-dependence', dict(layout=label, particles_got=len(p), particles_expected=len(pos0), nrec=N))
+                break
+
     # 4. round trip through the independent encoder: within one quantum
     nrt = 20 if run.quick else 400
     for k in range(nrt):
